@@ -54,6 +54,8 @@ type c11DevCase struct {
 	Renumber bool `json:"renumber,omitempty"`
 	// Error: the deviation must be rejected
 	Error bool `json:"error,omitempty"`
+	// Loose: paths whose value is not asserted (what MaxElements reports next to Unbounded)
+	Loose []string `json:"loose,omitempty"`
 }
 
 func c11Dump(text string) (map[string]string, error) {
@@ -140,6 +142,9 @@ func c11DevRun(c c11DevCase, o *hx.Obs) {
 		if c.Renumber && strings.HasSuffix(k, "/_pos") {
 			continue
 		}
+		if containsStr(c.Loose, k) {
+			continue
+		}
 		w, wok := want[k]
 		g, gok := with[k]
 		switch {
@@ -202,6 +207,7 @@ func c11DevCases() []c11DevCase {
 		{Name: "delete-two-musts-reversed", Target: "/c/x", Deviate: "delete { must \"b\"; must \"a\"; }", Gone: []string{x + "/Musts[0]", x + "/Musts[1]"}},
 		{Name: "delete-two-uniques", Target: "/c/l", Deviate: "delete { unique \"a\"; unique \"k b\"; }", Gone: []string{at("l") + "/Unique[0]", at("l") + "/Unique[1]", at("l") + "/Unique[2]"}, Set: map[string]string{at("l") + "/Unique[0][0]": "b", at("l") + "/Unique[0][1]": "a"}},
 		{Name: "add-two-musts", Target: "/c/plain", Deviate: "add { must \"q\"; must \"r\"; }", Set: map[string]string{at("plain") + "/Musts[0]/Expression": "q", at("plain") + "/Musts[0]/_kind": "Must", at("plain") + "/Musts[0]/Description": "", at("plain") + "/Musts[0]/Reference": "", at("plain") + "/Musts[0]/ErrorMessage": "", at("plain") + "/Musts[0]/ErrorAppTag": "", at("plain") + "/Musts[1]/Expression": "r", at("plain") + "/Musts[1]/_kind": "Must", at("plain") + "/Musts[1]/Description": "", at("plain") + "/Musts[1]/Reference": "", at("plain") + "/Musts[1]/ErrorMessage": "", at("plain") + "/Musts[1]/ErrorAppTag": ""}},
+		{Name: "replace-max-elements-unbounded", Target: "/c/ll", Deviate: "replace { max-elements unbounded; }", Set: map[string]string{at("ll") + "/Unbounded": "true", at("ll") + "/IsUnboundedSet": "true"}, Loose: []string{at("ll") + "/MaxElements", at("ll") + "/IsMaxElementsSet"}},
 		{Name: "delete-units-mismatch", Target: "/c/x", Deviate: "delete { units \"other\"; }", Error: true},
 		{Name: "delete-default-mismatch", Target: "/c/x", Deviate: "delete { default \"other\"; }", Error: true},
 	}
@@ -220,10 +226,11 @@ func c11DeviationTests(s *hx.Session) {
 				return
 			}
 		}
-		// two deviate statements of different kinds in one deviation: both take effect
+		// two deviate statements in one deviation, of different kinds or of the same: both take effect
 		touches := func(c c11DevCase) []string {
 			var ks []string
 			ks = append(ks, c.Gone...)
+			ks = append(ks, c.Loose...)
 			for k := range c.Set {
 				ks = append(ks, k)
 			}
@@ -235,7 +242,7 @@ func c11DeviationTests(s *hx.Session) {
 					continue
 				}
 				ka, kb := strings.Fields(a.Deviate)[0], strings.Fields(b.Deviate)[0]
-				if ka == kb || ka == "not-supported;" || kb == "not-supported;" {
+				if ka == "not-supported;" || kb == "not-supported;" {
 					continue
 				}
 				overlap := false
@@ -259,6 +266,7 @@ func c11DeviationTests(s *hx.Session) {
 				}
 				both := c11DevCase{Name: a.Name + "+" + b.Name, Target: a.Target, Deviate: a.Deviate + " deviate " + b.Deviate, Set: map[string]string{}}
 				both.Gone = append(append([]string{}, a.Gone...), b.Gone...)
+				both.Loose = append(append([]string{}, a.Loose...), b.Loose...)
 				for k, v := range a.Set {
 					both.Set[k] = v
 				}
